@@ -3,7 +3,7 @@
 manifest is always complete and valid).  BUILT lists the properties whose checks exist."""
 import json, subprocess
 
-BUILT = ["C01", "C02", "C03", "C04", "C05", "C06", "C07", "C10", "C13", "C20"]
+BUILT = ["C01", "C02", "C03", "C04", "C05", "C06", "C07", "C08", "C09", "C10", "C11", "C12", "C13", "C20"]
 
 HOOK_COMMITS = subprocess.run(
     ["git", "-C", "/repo", "log", "--format=%H", "--grep=^verif-hooks:"], capture_output=True, text=True
